@@ -120,6 +120,13 @@ def run_property(P, tier, seed, replay=None):
             obs[mode] = res["obs"]
             assert len(obs[mode]) == len(cases)
 
+        # proof / translator failures are recorded first so that the cap on replay files never hides them
+        import zlib
+        for e in proof_errors:
+            rp = {"property": P.ID, "kind": "proof obligation no longer checks", "broken": e,
+                  "theorems": P.THEOREMS, "note": "the Spec oracle is run on every generated and corpus case of this run"}
+            run.add_violation("proof: " + e.split("\n")[0], rp, "proof_%d" % (zlib.crc32(e.encode()) % 10000), no_input=True)
+
         # ---- 3. Coq evaluation
         total_model_bad = total_spec_bad = 0
         sigs = set()
@@ -169,10 +176,6 @@ def run_property(P, tier, seed, replay=None):
                       "mode": mode, "case": cases[i], "observed": obs[mode][i], "model": model_says}
                 run.add_violation("model/implementation disagreement (mode %s) on case %d" % (mode, i), rp,
                                   "tie_%s_%d" % (mode, i), no_input=True)
-        for e in proof_errors:
-            rp = {"property": P.ID, "kind": "proof obligation no longer checks", "broken": e,
-                  "theorems": P.THEOREMS, "note": "the Spec oracle was run on every generated and corpus case of this run"}
-            run.add_violation("proof: " + e.split("\n")[0], rp, "proof_%d" % (abs(hash(e)) % 10000), no_input=True)
 
         cov["discharged"] = cov["obligations"] - min(cov["obligations"], len(proof_errors))
         cov["evaluations"] = len(cases) * len(modes)
